@@ -20,8 +20,8 @@ TraceReset == IsEv("Reset") /\ cat' = <<>> /\ db' = <<>> /\ tx' = <<>>
 TraceBegin      == IsEv("Begin") /\ Begin(E.t, E.mode)
 TraceArm        == IsEv("Arm") /\ Arm(E.t)
 TraceNewStoreBegin == IsEv("NewStoreBegin") /\ NewStoreBegin(E.t, E.s, E.unique)
-TraceNewStore   == IsEv("NewStore") /\ NewStore(E.t, E.s, E.unique, E.ok)
-TraceOpenStore  == IsEv("OpenStore") /\ OpenStore(E.t, E.s, E.ok)
+TraceNewStore   == IsEv("NewStore") /\ NewStore(E.t, E.s, E.unique, E.ok, E.opts)
+TraceOpenStore  == IsEv("OpenStore") /\ OpenStore(E.t, E.s, E.ok, E.opts)
 TraceOp ==
   /\ IsEv("Op")
   /\ CASE E.op = "Add"           -> Add(E.t, E.s, E.k, E.v, E.ok)
@@ -41,7 +41,7 @@ TraceRollback    == IsEv("Rollback") /\ Rollback(E.t)
 TraceCrash       == IsEv("Crash") /\ Crash(E.t)
 TraceLogs        == IsEv("Logs") /\ Logs(E.n)
 TraceRemoveStore == IsEv("RemoveStore") /\ RemoveStore(E.s)
-TraceObserve     == IsEv("Observe") /\ (Observe(E.s, E.exists, E.items, E.count)
+TraceObserve     == IsEv("Observe") /\ (Observe(E.s, E.exists, E.items, E.count, E.opts)
                                         \/ ObserveMaybe(E.s, E.exists, E.items, E.count))
 \* the commit point is not observable directly: a silent step between CommitStart and CommitEnd
 TraceLin         == \E t \in DOMAIN tx : Lin(t) /\ UNCHANGED l
